@@ -304,6 +304,25 @@ def selftest_npstub(_p=None):
         return {'ok': False, 'detail': 'numpy view semantics changed'}
     if np.dtype(np.float64) != np.float64 or nps.SDtype('float64') != nps.float64:
         return {'ok': False, 'detail': 'dtype == scalar type'}
+    # structured dtype surface (round 6): .fields offsets / .itemsize, and view() to an equally laid out dtype = positional relabel
+    rdt = np.dtype([('p', '<f8'), ('q', '<i2', 3), ('r', '<f8')])
+    sdt = nps.StructDtype([('p', nps.SDtype('float64', '<')), ('q', nps.SDtype('int16', '<'), 3), ('r', nps.SDtype('float64', '<'))])
+    cases += 1
+    if sdt.itemsize != rdt.itemsize or [sdt.fields[n][1] for n in sdt.names] != [rdt.fields[n][1] for n in rdt.names] or len(sdt) != len(rdt):
+        return {'ok': False, 'detail': 'structured dtype fields / itemsize'}
+    rarr = np.zeros(4, dtype=rdt)
+    rarr['p'], rarr['r'] = np.arange(4), np.arange(4) + 100
+    rdt2 = np.dtype([('r', '<f8'), ('q', '<i2', 3), ('p', '<f8')])
+    rv = rarr[1:3].view(rdt2)
+    sarr = nps.structarr('caller', 4, sdt, {'p': nps.Field('caller', 'colP', 0, sdt['p'], None), 'q': nps.Field('caller', 'colQ', 0, sdt['q'], 3),
+                                            'r': nps.Field('caller', 'colR', 0, sdt['r'], None)})
+    sdt2 = nps.StructDtype([('r', nps.SDtype('float64', '<')), ('q', nps.SDtype('int16', '<'), 3), ('p', nps.SDtype('float64', '<'))])
+    sv = sarr[1:3].view(sdt2)
+    cases += 1
+    # real: field 'r' of the view shows column p (rows 1, 2); stub: the same provenance, and still the caller's memory
+    if list(rv['r']) != [1.0, 2.0] or sv.fields['r'].column != 'colP' or sv.fields['r'].a != 1 or sv.fields['p'].column != 'colR' \
+            or not np.shares_memory(rv, rarr) or not (sv.is_view and sv.owner == 'caller') or sv.n != 2:
+        return {'ok': False, 'detail': 'structured view()'}
     return {'ok': True, 'cases': cases}
 
 
